@@ -349,7 +349,8 @@ int upipe_h26xf_convert_frame(struct uref *uref,
             UBASE_RETURN(uref_h26x_set_nal_offset(uref, nal_offset + nal_size,
                                                   nal_units - 1))
 
-        if (vcl_offset && vcl_offset <= nal_offset + nal_size) {
+        if (vcl_offset &&
+            vcl_offset <= nal_offset + nal_size - nal_offset_correction) {
             uref_block_set_header_size(uref,
                                        vcl_offset + nal_offset_correction);
             vcl_offset = 0;
